@@ -76,6 +76,12 @@ def solve_job_shop(
                 raise ValueError(f"Job {j} operation {op_idx} has negative duration")
             n_machines = max(n_machines, machine + 1)
 
+    # The tables below are sized by the machine count: number the machines that occur 0..k-1
+    # (a job list that uses machine 10**12 has two machines, not 10**12 + 1)
+    dense = {m: k for k, m in enumerate(sorted({machine for job in jobs for machine, _ in job}))}
+    jobs = [[(dense[machine], duration) for machine, duration in job] for job in jobs]
+    n_machines = len(dense)
+
     rng = Random(seed)
     evals = 0
 
